@@ -173,3 +173,46 @@ func (m *Map) CompareAndSwap(key, old, new any) bool { m.y(); return m.m.Compare
 func (m *Map) CompareAndDelete(key, old any) bool    { m.y(); return m.m.CompareAndDelete(key, old) }
 func (m *Map) Range(f func(key, value any) bool)     { m.y(); m.m.Range(f) }
 func (m *Map) Clear()                                { m.y(); m.m.Clear() }
+
+// ---- the rest of package sync's surface (a changed tree may use any of it) ----
+
+// Cond is a condition variable whose waiters park in the scheduler.
+type Cond struct {
+	L Locker
+}
+
+func NewCond(l Locker) *Cond { return &Cond{L: l} }
+
+func (c *Cond) Wait() {
+	addr := uintptr(unsafe.Pointer(c))
+	c.L.Unlock()
+	simcore.Block(addr)
+	c.L.Lock()
+}
+func (c *Cond) Signal()    { simcore.Wake(uintptr(unsafe.Pointer(c))) }
+func (c *Cond) Broadcast() { simcore.Wake(uintptr(unsafe.Pointer(c))) }
+
+// OnceFunc, OnceValue and OnceValues are sync's helpers over the schedulable Once.
+func OnceFunc(f func()) func() {
+	var once Once
+	return func() { once.Do(f) }
+}
+
+func OnceValue[T any](f func() T) func() T {
+	var once Once
+	var r T
+	return func() T {
+		once.Do(func() { r = f() })
+		return r
+	}
+}
+
+func OnceValues[T1, T2 any](f func() (T1, T2)) func() (T1, T2) {
+	var once Once
+	var r1 T1
+	var r2 T2
+	return func() (T1, T2) {
+		once.Do(func() { r1, r2 = f() })
+		return r1, r2
+	}
+}
